@@ -948,7 +948,7 @@ class IkeSa(object):
 
         return response
 
-    def _process_create_child_sa_negotiation_res(self, response):
+    def _process_create_child_sa_negotiation_res(self, response, rekeying=False):
         for error in (PayloadNOTIFY.Type.NO_PROPOSAL_CHOSEN, PayloadNOTIFY.Type.TS_UNACCEPTABLE,
                       PayloadNOTIFY.Type.CHILD_SA_NOT_FOUND, PayloadNOTIFY.Type.TEMPORARY_FAILURE,
                       PayloadNOTIFY.Type.NO_ADDITIONAL_SAS):
@@ -1009,6 +1009,9 @@ class IkeSa(object):
         matches_tsr = [x for x in self.creating_child_sa.tsr if chosen_tsr.is_subset(x)]
         if not matches_tsi or not matches_tsr:
             raise TsUnacceptable('Responder did not select a subset of our proposed TS.')
+        # a rekeyed CHILD_SA keeps the selectors of the one it replaces (the responder side demands the same)
+        if rekeying and (chosen_tsi != self.creating_child_sa.tsi[0] or chosen_tsr != self.creating_child_sa.tsr[0]):
+            raise TsUnacceptable('Responder changed the TS of the rekeyed CHILD_SA.')
 
         # create the IPsec SAs according to the negotiated CHILD SA
         self.creating_child_sa = self.creating_child_sa._replace(outbound_spi=chosen_child_proposal.spi,
@@ -1233,7 +1236,8 @@ class IkeSa(object):
             prev_state = self.state
             self.state = IkeSa.State.ESTABLISHED
             try:
-                self._process_create_child_sa_negotiation_res(response)
+                self._process_create_child_sa_negotiation_res(response,
+                                                              rekeying=(prev_state == IkeSa.State.REK_CHILD_REQ_SENT))
                 if prev_state == IkeSa.State.REK_CHILD_REQ_SENT:
                     # CHILD_SA might have been deleted while we were waiting for our response
                     if self.rekeying_child_sa in self.child_sas:
